@@ -21,7 +21,8 @@ CONSTANTS N,              \* BUFFER_SIZE (power of 2)
           Procs,          \* threads
           Origins,        \* possible initial values of the four counters
           OverflowChecks, \* TRUE: debug build (checked arithmetic panics)
-          RelaxEmpty      \* see LinQueue!LqRelaxEmpty
+          RelaxEmpty,     \* see LinQueue!LqRelaxEmpty
+          Prefill         \* TRUE: the ring starts holding 0..N-1 (a pool allocator's free list)
 
 VARIABLES head, tail, etail, dhead,   \* the four AtomicU32
           buf,                        \* slot contents, index 0..N-1
@@ -42,19 +43,22 @@ NoReg == [slot |-> 0, lenb |-> 0, v |-> 0, idx |-> 0, i |-> 0, res |-> [ok |-> F
 
 TypeOK == /\ head \in 0..W-1 /\ tail \in 0..W-1 /\ etail \in 0..W-1 /\ dhead \in 0..W-1
 
-Init == /\ \E o \in Origins : head = o /\ tail = o /\ etail = o /\ dhead = o
-        /\ buf = [i \in 0..N-1 |-> 0]
+\* content right after construction: empty, or (Prefill) ids 0..N-1 published from the origin on
+Fill0(o) == IF Prefill THEN [i \in 0..N-1 |-> (i + N - Idx(o)) % N] ELSE [i \in 0..N-1 |-> 0]
+Tail0(o) == IF Prefill THEN Add(o, N) ELSE o
+Cands0   == IF Prefill THEN {[q |-> [i \in 1..N |-> i - 1], done |-> [t \in Procs |-> LQ!NotYet]]} ELSE LQ!LqInit0
+
+Init == /\ \E o \in Origins : head = o /\ tail = Tail0(o) /\ etail = Tail0(o) /\ dhead = o /\ buf = Fill0(o)
         /\ pc = [p \in Procs |-> "idle"]
         /\ reg = [p \in Procs |-> NoReg]
-        /\ cands = LQ!LqInit0
+        /\ cands = Cands0
         /\ pend = LQ!LqNoPend
 
 \* (trace validation) a fresh container whose counters start at o
-ResetTo(o) == /\ head' = o /\ tail' = o /\ etail' = o /\ dhead' = o
-              /\ buf' = [i \in 0..N-1 |-> 0]
+ResetTo(o) == /\ head' = o /\ tail' = Tail0(o) /\ etail' = Tail0(o) /\ dhead' = o /\ buf' = Fill0(o)
               /\ pc' = [p \in Procs |-> "idle"]
               /\ reg' = [p \in Procs |-> NoReg]
-              /\ cands' = LQ!LqInit0
+              /\ cands' = Cands0
               /\ pend' = LQ!LqNoPend
 
 -----------------------------------------------------------------------------
